@@ -62,8 +62,24 @@ def branch_contexts(root):
 
 
 def checked_sub_match(i):
-    """{'a', 'b', 'guard'} for `match a.checked_sub(b) { Some(d) [if guard] => d, <others diverge> }` (also if-let/let-else spellings)"""
+    """{'a', 'b', 'guard'} for `match a.checked_sub(b) { Some(d) [if guard] => d, <others diverge> }`, and for the combinator chain
+    `a.checked_sub(b).filter(|_| guard).ok_or_else(..)?`: the value is a - b, refused when a < b or when the guard is false"""
     i = strip(i)
+    if i.get("k") == "Try":
+        c = strip(i["e"])
+        guard = None
+        if c.get("k") == "MethodCall" and c["method"] in ("ok_or", "ok_or_else"):
+            c = strip(c["recv"])
+            if c.get("k") == "MethodCall" and c["method"] == "filter" and len(c["args"]) == 1:
+                cl = strip(c["args"][0])
+                if cl.get("k") == "Closure" and len(cl["params"]) == 1 and cl["params"][0].get("k") == "Wild":
+                    guard = cl["body"]
+                    c = strip(c["recv"])
+                else:
+                    return None
+            if c.get("k") == "MethodCall" and c["method"] == "checked_sub" and len(c["args"]) == 1:
+                return {"a": c["recv"], "b": c["args"][0], "guard": guard}
+        return None
     if i.get("k") != "Match":
         return None
     sc = strip(i["scrut"])
@@ -95,7 +111,7 @@ def uses_names(env, n):
 
 def refusal_atoms(block):
     """conditions under which the block returns Err, as atoms ('eq0', x) / ('lt', a, b)"""
-    atoms = set()
+    atoms = []
 
     def cond_atoms(c, positive=True):
         c = strip(c)
@@ -113,27 +129,35 @@ def refusal_atoms(block):
             if not positive:
                 op = {"Eq": "Ne", "Ne": "Eq", "Lt": "Ge", "Ge": "Lt", "Gt": "Le", "Le": "Gt"}.get(op, op)
             if op == "Eq" and tir.lit_int(c["r"]) == 0 and l:
-                atoms.add(("eq0", l))
+                atoms.append(("eq0", l))
             if op == "Eq" and tir.lit_int(c["l"]) == 0 and r:
-                atoms.add(("eq0", r))
-            if op == "Lt" and l and r:
-                atoms.add(("lt", l, r))
-            if op == "Gt" and l and r:
-                atoms.add(("lt", r, l))
+                atoms.append(("eq0", r))
+            if op == "Lt":
+                atoms.append(("lt", l or "?", r or "?", c["l"], c["r"]))
+            if op == "Gt":
+                atoms.append(("lt", r or "?", l or "?", c["r"], c["l"]))
     for x in tir.walk(block):
         if x.get("k") == "If" and x["cond"].get("k") != "LetCond":
             if diverges_err(x["then"]):
                 cond_atoms(x["cond"], True)
             elif x.get("else") is not None and diverges_err(x["else"]):
                 cond_atoms(x["cond"], False)
-        cs = checked_sub_match(x) if x.get("k") == "Match" else None
+        cs = checked_sub_match(x) if x.get("k") in ("Match", "Try") else None
         if cs is not None:
             a, b = tir.place(cs["a"]) or L.local_name(cs["a"]), tir.place(cs["b"]) or L.local_name(cs["b"])
-            if a and b:
-                atoms.add(("lt", a, b))
+            atoms.append(("lt", a or "?", b or "?", cs["a"], cs["b"]))
             if cs["guard"] is not None:
                 cond_atoms(cs["guard"], False)      # the Some arm is refused when its guard is false
     return atoms
+
+
+def lin_sat(e, env):
+    """linear form of e where `a.saturating_sub(b)` counts as a - b (the block refuses the cases in which they differ, or only
+    uses the result under a comparison that is unaffected by the clamp)"""
+    e0 = strip(e)
+    if e0.get("k") == "MethodCall" and e0["method"] == "saturating_sub" and len(e0["args"]) == 1:
+        return linear.add(lin_sat(e0["recv"], env), lin_sat(e0["args"][0], env), -1)
+    return linear.lin(e, env)
 
 
 def advance_rule(F, rep, blk):
@@ -143,14 +167,12 @@ def advance_rule(F, rep, blk):
         if s.get("k") == "Let" and s["pat"].get("k") == "Bind":
             i = strip(s["init"])
             try:
-                cs = checked_sub_match(i)
-                if i.get("k") == "MethodCall" and i["method"] == "saturating_sub":
-                    env[s["pat"]["name"]] = linear.add(linear.lin(i["recv"], env), linear.lin(i["args"][0], env), -1)
-                elif cs is not None:
+                cs = checked_sub_match(s["init"])
+                if cs is not None:
                     # `match a.checked_sub(b) { Some(d) [if g] => d, _ => return Err(..) }`: the value is a - b where it exists
-                    env[s["pat"]["name"]] = linear.add(linear.lin(cs["a"], env), linear.lin(cs["b"], env), -1)
+                    env[s["pat"]["name"]] = linear.add(lin_sat(cs["a"], env), lin_sat(cs["b"], env), -1)
                 else:
-                    env[s["pat"]["name"]] = linear.lin(i, env)
+                    env[s["pat"]["name"]] = lin_sat(i, env)
             except linear.NonLinear:
                 env[s["pat"]["name"]] = {s["pat"]["name"]: 1, "": 0}
             if s["pat"]["name"] == "skip":
@@ -207,9 +229,18 @@ def advance_rule(F, rep, blk):
         rep.cannot("advance.value", READ, L.Unsupported(blk, "skip value is not a let-bound linear expression"))
     # the error exit of the block is taken exactly when the jump is impossible
     atoms = refusal_atoms(blk["then"])
-    want_lt = ("lt", uses_names(env, "remaining"), uses_names(env, "end_offset"))
-    ok = ("eq0", "raw_len") in atoms and any(a[0] == "lt" and a[1] == "remaining" and a[2] == "end_offset" for a in atoms)
-    rep.ob("advance.guard", ok, READ, "guard", "the block must refuse to skip when raw_len is 0 or fewer than a Game End's bytes remain; refusal conditions found: %s" % sorted(atoms))
+    # refused when raw_len == 0, and when the advance would be negative: some refusal `A < B` with A - B equal to the advance itself
+    skipform = env.get(uses["count"]) if uses["count"] in env else None
+    neg = False
+    for a in atoms:
+        if a[0] == "lt" and skipform is not None:
+            try:
+                d = linear.add(lin_sat(a[3], env), lin_sat(a[4], env), -1)
+                neg = neg or {k: v for k, v in d.items() if v} == {k: v for k, v in skipform.items() if v}
+            except linear.NonLinear:
+                pass
+    ok = any(a[0] == "eq0" and a[1] == "raw_len" for a in atoms) and neg
+    rep.ob("advance.guard", ok, READ, "guard", "the block must refuse to skip when raw_len is 0 or fewer than a Game End's bytes remain; refusal conditions found: %s" % sorted(a[:3] for a in atoms))
 
 
 def skip_arm_ok(F, arm_body, branch):
@@ -265,6 +296,13 @@ def zero_frames_rule(F, rep):
         bb = tir.bool_branch(m) if m.get("k") in ("Match", "If") else None
         if bb is not None and "skip_frames" in tir.pretty(bb[0]):
             cap_ok = tir.lit_int(L.strip_try(bb[1])) == 0
+        elif m.get("k") == "MethodCall" and m["method"] == "map_or" and len(m["args"]) == 2:
+            # opts.filter(|o| o.skip_frames).map_or(DEFAULT, |_| 0)
+            flt = strip(m["recv"])
+            cl = strip(m["args"][1])
+            if (flt.get("k") == "MethodCall" and flt["method"] == "filter" and len(flt["args"]) == 1 and "skip_frames" in tir.pretty(strip(flt["args"][0]).get("body") or {})
+                    and cl.get("k") == "Closure" and len(cl["params"]) == 1 and cl["params"][0].get("k") == "Wild"):
+                cap_ok = tir.lit_int(L.strip_try(cl["body"])) == 0 and tir.lit_int(m["args"][0]) not in (None, 0)
         vplace = env.place(wc[0]["args"][1], peel=False) or ""
         ver_ok = vplace.endswith("start.slippi.version")
         pl = env.resolve(wc[0]["args"][2])
